@@ -222,7 +222,15 @@ func (t *standardRequestTranscoder) transcodeFunc(supportsEOF bool, reqMsg proto
 	}
 
 	// Next, overwrite values using the path parameters, since they take priority over everything.
-	for k, v := range t.req.PathParams {
+	// Keys are applied in sorted order, so that overlapping parameters give the same result on every run.
+	pathKeys := make([]string, 0, len(t.req.PathParams))
+	for k := range t.req.PathParams {
+		pathKeys = append(pathKeys, k)
+	}
+	slices.Sort(pathKeys)
+
+	for _, k := range pathKeys {
+		v := t.req.PathParams[k]
 		if err := gwquery.PopulateFieldFromPath(reqMsg, k, v); err != nil {
 			return status.Errorf(codes.InvalidArgument, "type mismatch, parameter: %s, error: %s", k, err)
 		}
